@@ -288,9 +288,15 @@ static void scripted(Tape &t, Ctx &c, qint64 size, int b, int fault)
         fault = None;
     if (fault == Swap && faultAt + 1 >= nBlocks)
         fault = None;
-    std::string desc = std::string("scripted-sender size=") + std::to_string(size) + " block=" + std::to_string(b) + " blocks=" + std::to_string(nBlocks) + " fault=" + faultNames[fault] + (fault != None ? "@" + std::to_string(faultAt) : std::string());
+    // the MD5 hash of the offer is optional (XEP-0096); without it an altered block of the right length from the right
+    // sender cannot be noticed by anybody, every other fault still can (sequence numbers, size, session id, sender)
+    const bool withHash = t.mode() == vh::Tape::Enum ? true : !t.prob(1, 3);
+    if (!withHash && fault == BitFlip)
+        fault = None;
+    std::string desc = std::string("scripted-sender ") + (withHash ? "" : "offer-without-hash ") + "size=" + std::to_string(size) + " block=" + std::to_string(b) + " blocks=" + std::to_string(nBlocks) + " fault=" + faultNames[fault] + (fault != None ? "@" + std::to_string(faultAt) : std::string());
     c.sample([&] { return desc; });
     c.label(std::string("fault:") + faultNames[fault]);
+    c.label(withHash ? "offer:with-hash" : "offer:without-hash");
     if (size % b != 0 || nBlocks >= 65536 || fault != None)
         c.nontrivial(vh::fnv(desc));
     int iqn = 0;
@@ -309,12 +315,12 @@ static void scripted(Tape &t, Ctx &c, qint64 size, int b, int fault)
         return type;
     };
     QString offer = QStringLiteral("<si xmlns='http://jabber.org/protocol/si' id='%1' profile='http://jabber.org/protocol/si/profile/file-transfer'>"
-                                   "<file xmlns='http://jabber.org/protocol/si/profile/file-transfer' name='file.bin' size='%2' hash='%3'/>"
+                                   "<file xmlns='http://jabber.org/protocol/si/profile/file-transfer' name='file.bin' size='%2'%3/>"
                                    "<feature xmlns='http://jabber.org/protocol/feature-neg'><x xmlns='jabber:x:data' type='form'><field var='stream-method' type='list-single'>"
                                    "<option><value>http://jabber.org/protocol/ibb</value></option></field></x></feature></si>")
                         .arg(sid)
                         .arg(size)
-                        .arg(QString::fromLatin1(QCryptographicHash::hash(content, QCryptographicHash::Md5).toHex()));
+                        .arg(withHash ? QStringLiteral(" hash='%1'").arg(QString::fromLatin1(QCryptographicHash::hash(content, QCryptographicHash::Md5).toHex())) : QString());
     QString rt = send(sender, offer);
     c.require(rt == u"result" && rjob, "c19 scripted offer-not-accepted", "stream-initiation offer was not accepted (reply type '" + q(rt) + "'): " + desc);
     rt = send(sender, QStringLiteral("<open xmlns='http://jabber.org/protocol/ibb' sid='%1' block-size='%2' stanza='iq'/>").arg(sid).arg(b));
@@ -358,8 +364,19 @@ static void scripted(Tape &t, Ctx &c, qint64 size, int b, int fault)
                 senderSawError = true;
                 continue;
             case WrongSid: useSid = sid + QStringLiteral("x"); break;
-            case ThirdPartyReplaces: from = QStringLiteral("mallory@evil.example/x"); break;
-            case ThirdPartyAdds: block(k, QStringLiteral("mallory@evil.example/x"), useSid, seq, QByteArrayLiteral("forged")); break;
+            case ThirdPartyReplaces:
+                // somebody else's block of the right length, session id and sequence number instead of the sender's
+                from = QStringLiteral("mallory@evil.example/x");
+                for (auto &ch : payload)
+                    ch = char(ch ^ 0x5a);
+                break;
+            case ThirdPartyAdds: {
+                QByteArray forged = payload;
+                for (auto &ch : forged)
+                    ch = char(ch ^ 0x5a);
+                block(k, QStringLiteral("mallory@evil.example/x"), useSid, seq, forged);
+                break;
+            }
             case SeqOffByOne: seq = k + 1; break;
             default: break;
             }
